@@ -405,5 +405,5 @@ CLAIM = {
     "note": "Trusted: CPython ast, vsa FORM engine, /verif/tables/deterministic.json (one source per row), numpy/scipy reductions. Not "
             "decided: 'no forecast beats perfect' (inequality over all vectors), ties in rank correlations, numerical behaviour.",
     "technique": "static analysis: def-use folding to algebraic normal form with opaque atoms, identity by cross-multiplication, "
-                 "symbolic substitution fcst:=obs, guard-set comparison, wiring patterns",
+                 "symbolic substitution fcst:=obs, guard-set comparison, wiring patterns; C05.7 compute_single scores a slice through compute_from_obs_fcst (a direct call of _compute_from_obs_fcst is a violation)",
 }
